@@ -1,13 +1,15 @@
 package main
 
-// C09 — struct marshal / unmarshal. The reflection walkers are checked
-// structurally on their SSA (kind dispatch tables, tag constants, required /
-// omit guards, nil safety); Paragraph.Update and Set are interpreted.
+// C09 — struct marshal / unmarshal. control.Marshal and (*Decoder).Decode are
+// interpreted end to end on probe struct types built for the purpose (every
+// supported field kind and tag combination), with package reflect replaced by
+// the model of reflectsim.go, the writer by a recording oracle and the
+// buffered reader by a scripted oracle that plays back exactly the text
+// written. Paragraph.Update and Set are interpreted on tables.
 
 import (
 	"fmt"
 	"go/types"
-	"regexp"
 	"sort"
 	"strings"
 
@@ -16,144 +18,417 @@ import (
 
 func init() { register("C09", checkC09) }
 
-var kindNames = map[int64]string{1: "Bool", 2: "Int", 3: "Int8", 4: "Int16", 5: "Int32", 6: "Int64", 7: "Uint", 8: "Uint8", 9: "Uint16", 10: "Uint32", 11: "Uint64", 22: "Ptr", 23: "Slice", 24: "String", 25: "Struct", 20: "Interface", 21: "Map"}
-
-// kindCases: the reflect.Kind constants a function's dispatch compares against,
-// with the block entered for each.
-func kindCases(fn *ssa.Function) map[string]*ssa.BasicBlock {
-	out := map[string]*ssa.BasicBlock{}
-	for _, g := range guardsOf(fn) {
-		m := regexp.MustCompile(`^\((?:\(reflect\.Value\)\.Type\(p0\)\.Kind\(\)|\(reflect\.Value\)\.Kind\(p0\)) == (\d+)\)$`).FindStringSubmatch(g.Term)
-		if m == nil {
-			continue
-		}
-		var k int64
-		fmt.Sscan(m[1], &k)
-		name := kindNames[k]
-		if name == "" {
-			name = "Kind" + m[1]
-		}
-		out[name] = g.If.Block().Succs[0]
-	}
-	return out
+type probeField struct {
+	name     string
+	typ      types.Type
+	tag      string
+	embedded bool
 }
 
-// blockRegionCalls lists the callee names reachable from b without leaving fn
-// through another kind case (approximated by: blocks dominated by b).
-func regionCalls(fn *ssa.Function, b *ssa.BasicBlock) []string {
-	var out []string
-	for _, x := range fn.Blocks {
-		if !b.Dominates(x) {
-			continue
+var probePkg = types.NewPackage("gdsa/probe", "probe")
+
+func mkProbeType(name string, fields []probeField) *types.Named {
+	var vars []*types.Var
+	var tags []string
+	for _, f := range fields {
+		vars = append(vars, types.NewField(0, probePkg, f.name, f.typ, f.embedded))
+		tags = append(tags, f.tag)
+	}
+	return types.NewNamed(types.NewTypeName(0, probePkg, name, nil), types.NewStruct(vars, tags), nil)
+}
+
+// c09Run is one interpretation context: the state holds the probe values, the
+// machine the oracles. Text written by the code under analysis accumulates in
+// written; the reader oracle plays the lines of script.
+type c09Run struct {
+	p       *Prog
+	m       *Machine
+	st      *State
+	written strings.Builder
+	script  []string
+	nread   int
+}
+
+func newC09Run(p *Prog) *c09Run {
+	r := &c09Run{p: p}
+	m := NewMachine(p, nil)
+	installStringModels(m)
+	installFuncModels(m)
+	installUnicodeModels(m)
+	installIOGlobals(m)
+	m.Hooks["fmt.Sprintf"] = sprintfModel
+	m.Hooks["(*bufio.Reader).ReadString"] = func(m *Machine, st *State, call *ssa.CallCommon, args []Val) ([]Val, bool) {
+		if d, ok := args[1].(int64); !ok || d != '\n' {
+			return nil, false
 		}
-		for _, ins := range x.Instrs {
-			if c, ok := ins.(ssa.CallInstruction); ok {
-				out = append(out, shortFn(calleeName(c.Common())))
+		if r.nread >= len(r.script) {
+			return []Val{&TupleV{E: []Val{"", eofVal}}}, true
+		}
+		l := r.script[r.nread]
+		r.nread++
+		if !strings.HasSuffix(l, "\n") {
+			return []Val{&TupleV{E: []Val{l, eofVal}}}, true
+		}
+		return []Val{&TupleV{E: []Val{l, nilV{}}}}, true
+	}
+	m.InvokeHook = func(m *Machine, st *State, call *ssa.CallCommon, recv Val, args []Val) ([]Val, bool) {
+		switch call.Method.Name() {
+		case "Write":
+			elems, many, ok := m.sliceElems(st, args[0])
+			if !ok || many {
+				return nil, false
 			}
+			for _, e := range elems {
+				b, ok := e.(int64)
+				if !ok {
+					return nil, false
+				}
+				r.written.WriteByte(byte(b))
+			}
+			return []Val{&TupleV{E: []Val{int64(len(elems)), nilV{}}}}, true
+		case "WriteString":
+			s, ok := args[0].(string)
+			if !ok {
+				return nil, false
+			}
+			r.written.WriteString(s)
+			return []Val{&TupleV{E: []Val{int64(len(s)), nilV{}}}}, true
+		}
+		return nil, false
+	}
+	m.Hooks["io.WriteString"] = func(m *Machine, st *State, call *ssa.CallCommon, args []Val) ([]Val, bool) {
+		s, ok := args[1].(string)
+		if !ok {
+			return nil, false
+		}
+		r.written.WriteString(s)
+		return []Val{&TupleV{E: []Val{int64(len(s)), nilV{}}}}, true
+	}
+	m.Hooks["fmt.Fprintf"] = func(m *Machine, st *State, call *ssa.CallCommon, args []Val) ([]Val, bool) {
+		alts, ok := sprintfModel(m, st, call, args[1:])
+		if !ok {
+			return nil, false
+		}
+		s := alts[0].(string)
+		r.written.WriteString(s)
+		return []Val{&TupleV{E: []Val{int64(len(s)), nilV{}}}}, true
+	}
+	installReflectModel(m)
+	r.m = m
+	r.st = initState(m, "control", "version", "dependency")
+	return r
+}
+
+// call runs fn to completion in the run's state and returns its result.
+func (r *c09Run) call(fn *ssa.Function, args ...Val) (Val, string) {
+	if r.st.Status == stStuck {
+		return nil, "undecided: " + r.st.Msg
+	}
+	r.st.Status = stRun
+	r.st.Frames = nil
+	r.st.push(fn, args, nil)
+	out := r.m.Run(r.st)
+	if len(out) != 1 {
+		return nil, fmt.Sprintf("undecided: %d paths", len(out))
+	}
+	switch out[0].Status {
+	case stRet:
+		return r.st.Ret, ""
+	case stPanic:
+		return nil, "PANIC: " + out[0].Msg
+	}
+	return nil, "undecided: " + out[0].Msg
+}
+
+func splitLines(text string) []string {
+	var lines []string
+	for len(text) > 0 {
+		i := strings.Index(text, "\n")
+		if i < 0 {
+			lines = append(lines, text)
+			break
+		}
+		lines = append(lines, text[:i+1])
+		text = text[i+1:]
+	}
+	return lines
+}
+
+// marshal interprets control.Marshal(writer, &obj) and returns the text written and
+// whether an error was returned.
+func (r *c09Run) marshal(t types.Type, obj int) (text string, isErr bool, why string) {
+	fn := r.p.Func("control", "Marshal")
+	if fn == nil {
+		return "", false, "undecided: control.Marshal not found"
+	}
+	r.written.Reset()
+	wid := r.st.alloc(types.Typ[types.Int], OpaqueV{"writer"})
+	ret, why := r.call(fn, IfaceV{T: types.NewPointer(types.Typ[types.Int]), V: Ptr{Obj: wid}}, IfaceV{T: types.NewPointer(t), V: Ptr{Obj: obj}})
+	if why != "" {
+		return "", false, why
+	}
+	_, isNil := ret.(nilV)
+	return r.written.String(), !isNil, ""
+}
+
+// unmarshal interprets (*Decoder).Decode(&obj) with the reader playing text.
+func (r *c09Run) unmarshal(t types.Type, text string) (obj int, isErr bool, why string) {
+	fn := r.p.Method("control", "Decoder", "Decode")
+	decT := r.p.Named("control", "Decoder")
+	prT := r.p.Named("control", "ParagraphReader")
+	if fn == nil || decT == nil || prT == nil {
+		return 0, false, "undecided: control.Decoder not found"
+	}
+	r.script = splitLines(text)
+	r.nread = 0
+	rid := r.st.alloc(types.Typ[types.Int], OpaqueV{"bufio"})
+	did := r.st.alloc(decT, mkStruct(decT, map[string]Val{"paragraphReader": mkStruct(prT, map[string]Val{"reader": Ptr{Obj: rid}})}))
+	obj = r.st.alloc(t, zeroVal(t))
+	ret, why := r.call(fn, Ptr{Obj: did}, IfaceV{T: types.NewPointer(t), V: Ptr{Obj: obj}})
+	if why != "" {
+		return 0, false, why
+	}
+	_, isNil := ret.(nilV)
+	return obj, !isNil, ""
+}
+
+// deepRender renders the value structurally (pointers, slices and maps followed).
+func deepRender(st *State, v Val, depth int) string {
+	if depth > 12 {
+		return "..."
+	}
+	switch x := v.(type) {
+	case Ptr:
+		lv, ok := st.load(x)
+		if !ok {
+			return "&?"
+		}
+		return "&" + deepRender(st, lv, depth+1)
+	case SliceV:
+		if x.Abs {
+			return "slice?"
+		}
+		var parts []string
+		for i := 0; i < x.Len_; i++ {
+			e, _ := st.load(Ptr{Obj: x.Obj, Path: pathAppend(x.Path, x.Lo+i)})
+			parts = append(parts, deepRender(st, e, depth+1))
+		}
+		return "[" + strings.Join(parts, " ") + "]"
+	case nilV:
+		return "nil"
+	case MapV:
+		mo := st.Heap[x.Obj].V.(*MapObjV)
+		var parts []string
+		for i := range mo.K {
+			parts = append(parts, deepRender(st, mo.K[i], depth+1)+":"+deepRender(st, mo.V[i], depth+1))
+		}
+		sort.Strings(parts)
+		return "map{" + strings.Join(parts, " ") + "}"
+	case *StructV:
+		var parts []string
+		for _, f := range x.F {
+			parts = append(parts, deepRender(st, f, depth+1))
+		}
+		return "{" + strings.Join(parts, " ") + "}"
+	case *ArrayV:
+		var parts []string
+		for _, f := range x.E {
+			parts = append(parts, deepRender(st, f, depth+1))
+		}
+		return "[" + strings.Join(parts, " ") + "]"
+	case IfaceV:
+		return "iface(" + deepRender(st, x.V, depth+1) + ")"
+	case string:
+		return fmt.Sprintf("%q", x)
+	}
+	return fmtVal(v, func(i int) string { return fmt.Sprint(i) })
+}
+
+// fieldsOf renders each field of the struct object separately, keyed by field name.
+func fieldsOf(st *State, t *types.Named, obj int, skip map[string]bool) map[string]string {
+	out := map[string]string{}
+	sv, ok := st.Heap[obj].V.(*StructV)
+	if !ok {
+		return out
+	}
+	s := structOf(t)
+	for i := 0; i < s.NumFields(); i++ {
+		if skip[s.Field(i).Name()] {
+			continue
+		}
+		out[s.Field(i).Name()] = deepRender(st, sv.F[i], 0)
+	}
+	return out
+}
+
+func diffFields(a, b map[string]string) []string {
+	var out []string
+	var ks []string
+	for k := range a {
+		ks = append(ks, k)
+	}
+	sort.Strings(ks)
+	for _, k := range ks {
+		if a[k] != b[k] {
+			out = append(out, fmt.Sprintf("%s: %s became %s", k, a[k], b[k]))
 		}
 	}
 	return out
 }
 
-func has(list []string, s string) bool {
-	for _, x := range list {
-		if x == s {
-			return true
-		}
+// parseText reads text with the deb822 reference model (one paragraph expected).
+func refParagraph(text string) (*refPara, string) {
+	para, err, _ := refNext(splitLines(text), 0)
+	if err != "" {
+		return nil, err
 	}
-	return false
-}
-
-func hasAnyPrefix(list []string, s string) bool {
-	for _, x := range list {
-		if strings.HasPrefix(x, s) {
-			return true
-		}
-	}
-	return false
+	return para, ""
 }
 
 func checkC09(p *Prog, rp *Report) {
-	rp.Explanation = "C09-KINDS: the kind dispatch of the encoder's and the decoder's value walkers both cover String, Int, Uint, Bool, Slice and Struct, and per kind the conversions pair up (String()/SetString, Int: Itoa|FormatInt / Atoi|ParseInt + SetInt, Uint: FormatUint / ParseUint + SetUint, Bool: the literal written for true is the literal the decoder compares with, Slice/Struct: the slice and struct helpers). C09-TAGS: both walkers resolve the wire name as Tag.Get(\"control\") defaulting to the Go name, skip \"-\", test required against \"true\", default delim to one blank. C09-REQ: the encoder omits a field iff its text is empty and it is not required, deciding BEFORE the multiline prefix is added; the decoder distinguishes absent from empty by the map's comma-ok result and returns an error iff a required key is absent. C09-MERGE: convertToParagraph returns embedded.Update(fields of the struct); Update and Set interpreted abstractly: receiver order first, then new keys in argument order, argument values win; Set replaces in place or appends. C09-NIL: a pointer field is tested with IsNil before Elem(). C09-TYPES: every struct-typed field (or slice element) of the repository's own document types implements Marshallable on the value and Unmarshallable on the pointer, which is how the walkers look them up; every other field kind is in both dispatch tables."
-	rp.NotDecided = "the round trip for every probe value (needs package reflect itself); whether writing 0/no for zero integers/booleans contradicts 'optional zero fields are omitted' (a matter of reading the statement; no rule is armed on it)."
-	rp.Trusted = []string{"go/types, go/ssa", "package reflect, strconv"}
+	rp.Explanation = "control.Marshal and (*Decoder).Decode are interpreted abstractly end to end on probe struct types built by the checker (string, renamed, required, skipped and multi-line strings; int, uint, bool; blank- and comma-separated string lists, an integer list; version.Version, dependency.Dependency, dependency.Arch and a list of Arch; a pointer to a version; with and without the embedded raw Paragraph), with package reflect replaced by a model over the abstract heap (DESIGN 3.C09), the writer by a recording oracle and the buffered reader by an oracle playing back exactly the text written. C09-DECODE: a document with every field decodes to the expected field values (custom types are decoded by their own UnmarshalControl, interpreted). C09-ROUND: decode, marshal, decode again: the second value equals the first field by field, the text is a fixpoint, and it lists exactly the expected keys in struct order (wire names, '-' skipped). C09-REQ: a required field is written even when empty and its absence on input is an error; empty optional strings, lists and nil pointers are omitted. C09-MERGE: with the embedded Paragraph, unknown fields are re-emitted unchanged in their original position and known fields carry the struct's current values; Update / Set tables. C09-NOPANIC: no panic state on any of these runs, including nil pointers, nil slices and the zero struct. C09-KINDS: one single-field probe per supported kind round-trips on its own. C09-TYPES: every struct-typed field (or list element) of the repository's document types implements Marshallable on the value and Unmarshallable on the pointer; every other field kind is one that C09-KINDS found supported by both walkers."
+	rp.NotDecided = "probe values other than those of the tables (the walkers are data independent except for emptiness and the delimiter/strip sets, which the tables vary); pointer fields are encode-only in go-debian (the decoder has no pointer case), so they are covered by C09-NOPANIC only; whether writing 0/no for zero integers/booleans contradicts 'optional zero fields are omitted' (a matter of reading the statement; no rule is armed on it)."
+	rp.Trusted = []string{"go/types, go/ssa", "the reflect model of /verif/sa/reflectsim.go", "strconv, strings (models)", "deb822 reference model"}
 
-	enc := p.Func("control", "marshalStructValue")
-	dec := p.Func("control", "decodeStructValue")
-	kinds := rp.Rule("C09-KINDS", "encoder and decoder dispatch on the same kinds with matching conversions", 7)
-	if enc == nil || dec == nil {
-		// locate by role: functions in control switching on reflect kinds with (Value, StructField[, string]) parameters
-		for _, fn := range p.SrcFuncs("control") {
-			if len(kindCases(fn)) >= 4 {
-				if fn.Signature.Params().Len() == 2 && enc == nil {
-					enc = fn
-				}
-				if fn.Signature.Params().Len() == 3 && dec == nil {
-					dec = fn
-				}
-			}
-		}
-	}
-	if enc == nil || dec == nil {
-		kinds.bad("control.value-walkers", "", "the encoder's / decoder's value dispatch could not be located", nil)
+	verT := p.Named("version", "Version")
+	depT := p.Named("dependency", "Dependency")
+	archT := p.Named("dependency", "Arch")
+	paraT := p.Named("control", "Paragraph")
+	dec := rp.Rule("C09-DECODE", "a document with every supported field decodes to the expected values", 1)
+	round := rp.Rule("C09-ROUND", "decode / marshal / decode is the identity; the text is a fixpoint with the expected keys", 2)
+	req := rp.Rule("C09-REQ", "required fields are always written and must be present; empty optional fields are omitted", 3)
+	nop := rp.Rule("C09-NOPANIC", "marshalling and unmarshalling the probes never panics", 1)
+	kinds := rp.Rule("C09-KINDS", "each supported kind round-trips on its own", 9)
+	if verT == nil || depT == nil || archT == nil || paraT == nil {
+		dec.bad("control probes", "", "version.Version / dependency.Dependency / dependency.Arch / control.Paragraph not found", nil)
 		return
 	}
-	ek, dk := kindCases(enc), kindCases(dec)
-	for _, k := range []string{"String", "Int", "Uint", "Bool", "Slice", "Struct"} {
-		key := "kind:" + k
-		eb, dbk := ek[k], dk[k]
-		switch {
-		case eb == nil && dbk == nil:
-			kinds.bad(key, p.Pos(enc.Pos()), "neither walker handles reflect."+k, nil)
-			continue
-		case eb == nil:
-			kinds.bad(key, p.Pos(enc.Pos()), "the decoder handles reflect."+k+" but the encoder does not: such a field cannot be marshalled", nil)
-			continue
-		case dbk == nil:
-			kinds.bad(key, p.Pos(dec.Pos()), "the encoder writes reflect."+k+" fields but the decoder has no case for them: the marshalled text does not unmarshal", nil)
-			continue
-		}
-		ec, dc := regionCalls(enc, eb), regionCalls(dec, dbk)
-		ok, detail := true, ""
-		switch k {
-		case "String":
-			ok = has(ec, "(reflect.Value).String") && has(dc, "(reflect.Value).SetString")
-			detail = "String()/SetString"
-		case "Int":
-			ok = has(ec, "(reflect.Value).Int") && (has(ec, "strconv.Itoa") || has(ec, "strconv.FormatInt")) && has(dc, "(reflect.Value).SetInt") && (has(dc, "strconv.Atoi") || has(dc, "strconv.ParseInt"))
-			detail = "Int()+Itoa|FormatInt / Atoi|ParseInt+SetInt"
-		case "Uint":
-			ok = has(ec, "(reflect.Value).Uint") && has(ec, "strconv.FormatUint") && has(dc, "(reflect.Value).SetUint") && has(dc, "strconv.ParseUint")
-			detail = "Uint()+FormatUint / ParseUint+SetUint"
-		case "Bool":
-			ok = has(ec, "(reflect.Value).Bool") && has(dc, "(reflect.Value).SetBool")
-			detail = "Bool()/SetBool"
-		case "Slice":
-			ok = hasAnyPrefix(ec, "control.") && hasAnyPrefix(dc, "control.")
-			detail = "slice helpers"
-		case "Struct":
-			ok = hasAnyPrefix(ec, "control.") && hasAnyPrefix(dc, "control.")
-			detail = "struct helpers"
-		}
-		kinds.check(ok, key, p.Pos(enc.Pos()), "both walkers: "+detail, fmt.Sprintf("conversions do not pair up (%s): encoder calls %v, decoder calls %v", detail, ec, dc))
+	str, integer, uinteger, boolean := types.Typ[types.String], types.Typ[types.Int], types.Typ[types.Uint], types.Typ[types.Bool]
+	fields := []probeField{
+		{"Name", str, "", false},
+		{"Wire", str, `control:"X-Wire-Name"`, false},
+		{"Needed", str, `required:"true"`, false},
+		{"Hidden", str, `control:"-"`, false},
+		{"Long", str, `control:"Long-Text" multiline:"true"`, false},
+		{"Count", integer, "", false},
+		{"Size", uinteger, "", false},
+		{"Flag", boolean, "", false},
+		{"Words", types.NewSlice(str), "", false},
+		{"Items", types.NewSlice(str), `delim:"," strip:"\n\r\t "`, false},
+		{"Nums", types.NewSlice(integer), `delim:","`, false},
+		{"Ver", verT, "", false},
+		{"Deps", depT, `control:"Build-Depends"`, false},
+		{"Arch", archT, "", false},
+		{"Arches", types.NewSlice(archT), `control:"Architecture"`, false},
 	}
-	// boolean literals
+	full := mkProbeType("Full", fields)
+	pos := ""
+	if fn := p.Func("control", "Marshal"); fn != nil {
+		pos = p.Pos(fn.Pos())
+	}
+	panics := []string{}
+	undecided := ""
+	note := func(why string) bool { // true = stop
+		if strings.HasPrefix(why, "PANIC") {
+			panics = append(panics, why)
+			return true
+		}
+		if why != "" {
+			if undecided == "" {
+				undecided = why
+			}
+			return true
+		}
+		return false
+	}
+	sfield := func(st *State, t *types.Named, obj int, name string) Val {
+		return st.Heap[obj].V.(*StructV).F[fieldIndex(structOf(t), name)]
+	}
+
+	// ---- DECODE + ROUND on the full document --------------------------------------------
+	doc := "Name: hello\n" +
+		"X-Wire-Name: renamed value\n" +
+		"Needed: here\n" +
+		"Hidden: must not be decoded\n" +
+		"Long-Text:\n first line\n second line\n" +
+		"Count: -42\n" +
+		"Size: 3000000000\n" +
+		"Flag: yes\n" +
+		"Words: alpha beta gamma\n" +
+		"Items: one, two words, three\n" +
+		"Nums: 1,20,-3\n" +
+		"Ver: 1:2.0-3\n" +
+		"Build-Depends: foo (>= 1.0), bar [amd64] | baz\n" +
+		"Arch: amd64\n" +
+		"Architecture: amd64 linux-any\n"
+	wantKeys := []string{"Name", "X-Wire-Name", "Needed", "Long-Text", "Count", "Size", "Flag", "Words", "Items", "Nums", "Ver", "Build-Depends", "Arch", "Architecture"}
 	{
-		var encTrue, encFalse string
-		if b := ek["Bool"]; b != nil {
-			for _, x := range enc.Blocks {
-				if !b.Dominates(x) {
-					continue
+		var decP, roundP []string
+		r := newC09Run(p)
+		s1, isErr, why := r.unmarshal(full, doc)
+		if !note(why) {
+			if isErr {
+				decP = append(decP, "a document with every field in normal form is rejected")
+			} else {
+				f1 := fieldsOf(r.st, full, s1, nil)
+				want := map[string]string{
+					"Name": `"hello"`, "Wire": `"renamed value"`, "Needed": `"here"`, "Hidden": `""`,
+					"Count": "i-42", "Size": "i3000000000", "Flag": "T",
+					"Words": `["alpha" "beta" "gamma"]`, "Items": `["one" "two words" "three"]`, "Nums": "[i1 i20 i-3]",
 				}
-				if r, ok := x.Instrs[len(x.Instrs)-1].(*ssa.Return); ok {
-					if s, ok := constString(r.Results[0]); ok {
-						// which side of Bool()? the block reached when Bool() is true
-						for _, g := range guardsOf(enc) {
-							if g.Term == "(reflect.Value).Bool(p0)" {
-								if g.If.Block().Succs[0] == x {
-									encTrue = s
-								} else if g.If.Block().Succs[1] == x {
-									encFalse = s
+				for k, w := range want {
+					if f1[k] != w {
+						decP = append(decP, fmt.Sprintf("field %s decodes to %s, want %s", k, f1[k], w))
+					}
+				}
+				if l := f1["Long"]; l != `"first line\nsecond line\n"` && l != `"first line\nsecond line"` && l != `"\nfirst line\nsecond line\n"` && l != `"\nfirst line\nsecond line"` {
+					decP = append(decP, "the multi-line field decodes to "+l)
+				}
+				for _, k := range []string{"Ver", "Deps", "Arch", "Arches"} {
+					if zero := deepRender(r.st, zeroVal(structOf(full).Field(fieldIndex(structOf(full), k)).Type()), 0); f1[k] == zero {
+						decP = append(decP, "the custom-typed field "+k+" is left at its zero value")
+					}
+				}
+				if v := f1["Ver"]; v != `{i1 "2.0" "3"}` {
+					decP = append(decP, "Ver decodes to "+v+", want epoch 1, upstream 2.0, revision 3")
+				}
+				sort.Strings(decP)
+				r.st.Heap[s1].V.(*StructV).F[fieldIndex(structOf(full), "Hidden")] = "secret"
+				delete(f1, "Hidden")
+				t1, isErr, why := r.marshal(full, s1)
+				if !note(why) {
+					if isErr {
+						roundP = append(roundP, "the decoded value cannot be marshalled")
+					} else {
+						para, perr := refParagraph(t1)
+						if perr != "" {
+							roundP = append(roundP, fmt.Sprintf("the marshalled text %q is not one well-formed paragraph", t1))
+						} else if strings.Join(para.order, ",") != strings.Join(wantKeys, ",") {
+							roundP = append(roundP, fmt.Sprintf("the marshalled text has the fields %v, want %v", para.order, wantKeys))
+						}
+						s2, isErr, why := r.unmarshal(full, t1)
+						if !note(why) {
+							if isErr {
+								roundP = append(roundP, fmt.Sprintf("the marshalled text %q does not unmarshal", t1))
+							} else {
+								f2 := fieldsOf(r.st, full, s2, map[string]bool{"Hidden": true})
+								// a multi-line value may gain one trailing newline on the first cycle (reader normal form)
+								if strings.TrimSuffix(f1["Long"], `"`) + `\n"` == f2["Long"] {
+									f1["Long"] = f2["Long"]
+								}
+								for _, d := range diffFields(f1, f2) {
+									roundP = append(roundP, "after marshal+unmarshal "+d)
+								}
+								t2, _, why := r.marshal(full, s2)
+								if !note(why) && t2 != t1 {
+									// allow the same normalisation once
+									s3, _, why := r.unmarshal(full, t2)
+									if !note(why) {
+										t3, _, why := r.marshal(full, s3)
+										if !note(why) && t3 != t2 {
+											roundP = append(roundP, fmt.Sprintf("the text keeps changing over marshal/unmarshal cycles: %q then %q", t2, t3))
+										}
+									}
 								}
 							}
 						}
@@ -161,211 +436,288 @@ func checkC09(p *Prog, rp *Report) {
 				}
 			}
 		}
-		decLit := ""
-		if b := dk["Bool"]; b != nil {
-			tm := newTermer()
-			for _, x := range dec.Blocks {
-				if !b.Dominates(x) {
-					continue
-				}
-				for _, ins := range x.Instrs {
-					if c, ok := ins.(*ssa.Call); ok && shortFn(calleeName(c.Common())) == "(reflect.Value).SetBool" {
-						if m := regexp.MustCompile(`^\("((?:[^"\\]|\\.)*)" == p2\)$`).FindStringSubmatch(tm.term(c.Call.Args[1])); m != nil {
-							decLit = m[1]
-						}
-					}
-				}
-			}
+		if undecided != "" {
+			dec.undecided("probe.Full", pos, undecided)
+			round.undecided("probe.Full", pos, undecided)
+		} else {
+			fillProblems(dec, "probe.Full", pos, decP, "15 fields of 11 kinds decode to the expected values")
+			fillProblems(round, "probe.Full", pos, roundP, "decode/marshal/decode is the identity; text fixpoint with the 14 expected keys in struct order; the skipped field is neither decoded nor written")
 		}
-		kinds.check(encTrue != "" && encTrue == decLit && encFalse != encTrue, "bool-literal", p.Pos(enc.Pos()), fmt.Sprintf("true is written %q and read as value == %q; false is written %q", encTrue, decLit, encFalse), fmt.Sprintf("the encoder writes %q for true (%q for false) but the decoder sets true iff the text equals %q", encTrue, encFalse, decLit))
 	}
 
-	// C09-NIL
-	nilr := rp.Rule("C09-NIL", "pointer fields are nil-checked before being followed", 1)
-	if b := ek["Ptr"]; b != nil {
-		okNil := false
-		for _, g := range guardsOf(enc) {
-			if g.Term == "(reflect.Value).IsNil(p0)" && b.Dominates(g.If.Block()) {
-				// Elem() only on the non-nil side
-				nonNil := g.If.Block().Succs[1]
-				okNil = true
-				for _, x := range enc.Blocks {
-					for _, ins := range x.Instrs {
-						if c, ok := ins.(*ssa.Call); ok && shortFn(calleeName(c.Common())) == "(reflect.Value).Elem" {
-							if !nonNil.Dominates(x) {
-								okNil = false
+	// ---- ROUND on a folded document ----------------------------------------------------------
+	undecided = ""
+	{
+		var problems []string
+		folded := "Needed: x\nWords: alpha\n beta  gamma\nItems: one,\n two words,\n three\nBuild-Depends: foo (>= 1.0),\n bar [amd64] | baz\nArchitecture: amd64\n linux-any\n"
+		flat := "Needed: x\nWords: alpha beta gamma\nItems: one, two words, three\nBuild-Depends: foo (>= 1.0), bar [amd64] | baz\nArchitecture: amd64 linux-any\n"
+		r := newC09Run(p)
+		a, e1, why1 := r.unmarshal(full, folded)
+		if !note(why1) {
+			b, e2, why2 := r.unmarshal(full, flat)
+			if !note(why2) {
+				if e1 || e2 {
+					problems = append(problems, "a document with folded list fields is rejected")
+				} else {
+					for _, d := range diffFields(fieldsOf(r.st, full, b, nil), fieldsOf(r.st, full, a, nil)) {
+						problems = append(problems, "folded over several lines, "+d)
+					}
+					ta, _, why := r.marshal(full, a)
+					if !note(why) {
+						c, e3, why := r.unmarshal(full, ta)
+						if !note(why) {
+							if e3 {
+								problems = append(problems, fmt.Sprintf("the marshalled text %q does not unmarshal", ta))
+							} else {
+								for _, d := range diffFields(fieldsOf(r.st, full, a, nil), fieldsOf(r.st, full, c, nil)) {
+									problems = append(problems, "after marshal+unmarshal "+d)
+								}
 							}
 						}
 					}
 				}
 			}
 		}
-		nilr.check(okNil, fname(enc)+":Ptr", p.Pos(enc.Pos()), "IsNil tested; Elem() only on the non-nil side", "a pointer field is followed with Elem() without a nil test: marshalling a struct with a nil pointer field panics")
-	} else {
-		nilr.ok(fname(enc)+":Ptr", p.Pos(enc.Pos()), "the encoder has no pointer case")
+		if undecided != "" {
+			round.undecided("probe.Full:folded", pos, undecided)
+		} else {
+			fillProblems(round, "probe.Full:folded", pos, problems, "list and relationship fields folded over several lines decode like their one-line form and survive marshal+unmarshal")
+		}
 	}
 
-	c09Tags(p, rp)
-	c09Req(p, rp)
-	c09Merge(p, rp)
-	c09Types(p, rp, ek, dk)
-}
-
-func tagGets(fns ...*ssa.Function) map[string]bool {
-	out := map[string]bool{}
-	for _, fn := range fns {
-		if fn == nil {
-			continue
-		}
-		for _, c := range allCalls(fn) {
-			if calleeName(c.Common()) == "(reflect.StructTag).Get" && len(c.Common().Args) == 2 {
-				if s, ok := constString(c.Common().Args[1]); ok {
-					out[s] = true
+	// ---- REQ ------------------------------------------------------------------------------
+	undecided = ""
+	{
+		var problems []string
+		// (a) zero struct: required written, empty optional strings/lists omitted
+		r := newC09Run(p)
+		obj := r.st.alloc(full, zeroVal(full))
+		t0, isErr, why := r.marshal(full, obj)
+		if !note(why) {
+			if isErr {
+				problems = append(problems, "the zero value of the probe cannot be marshalled")
+			} else if para, perr := refParagraph(t0); perr != "" {
+				problems = append(problems, fmt.Sprintf("the zero value marshals to %q, not a paragraph", t0))
+			} else {
+				if _, ok := para.values["Needed"]; !ok {
+					problems = append(problems, fmt.Sprintf("a required field that is empty is not written (text %q)", t0))
+				}
+				for _, k := range []string{"Name", "X-Wire-Name", "Long-Text", "Words", "Items", "Nums", "Hidden", "-"} {
+					if _, ok := para.values[k]; ok {
+						problems = append(problems, fmt.Sprintf("the empty optional field %s is written (text %q)", k, t0))
+					}
+				}
+				// and it reads back
+				if _, isErr, why := r.unmarshal(full, t0); !note(why) && isErr {
+					problems = append(problems, fmt.Sprintf("the marshalled zero value %q does not unmarshal", t0))
 				}
 			}
 		}
-	}
-	return out
-}
-
-func c09Tags(p *Prog, rp *Report) {
-	r := rp.Rule("C09-TAGS", "both walkers read the same tag keys with the same conventions", 4)
-	encFns := []*ssa.Function{p.Func("control", "convertToParagraph"), p.Func("control", "marshalStructValueSlice")}
-	decFns := []*ssa.Function{p.Func("control", "decodeStruct"), p.Func("control", "decodeStructValueSlice")}
-	et, dt := tagGets(encFns...), tagGets(decFns...)
-	for _, k := range []string{"control", "required", "delim"} {
-		r.check(et[k] && dt[k], "tag:"+k, "", "read by encoder and decoder", fmt.Sprintf("tag %q is read by the encoder: %v, by the decoder: %v", k, et[k], dt[k]))
-	}
-	// conventions: "-" skip, "true" for required, default delim " ", name default
-	for _, side := range []struct {
-		name string
-		fns  []*ssa.Function
-	}{{"encoder", encFns}, {"decoder", decFns}} {
-		lits := map[string]bool{}
-		nameDefault := false
-		for _, fn := range side.fns {
-			if fn == nil {
-				continue
+		if undecided != "" {
+			req.undecided("encoder:zero-value", pos, undecided)
+		} else {
+			fillProblems(req, "encoder:zero-value", pos, problems, "required field written although empty; empty strings and lists omitted; the text reads back")
+		}
+		// (b) required absent on input
+		undecided = ""
+		problems = nil
+		r = newC09Run(p)
+		if _, isErr, why := r.unmarshal(full, "Name: x\nCount: 1\n"); !note(why) && !isErr {
+			problems = append(problems, "a document without the required field is accepted")
+		}
+		r = newC09Run(p)
+		if obj, isErr, why := r.unmarshal(full, "Name: x\nNeeded:\n"); !note(why) {
+			if isErr {
+				problems = append(problems, "a required field that is present but empty is reported missing")
+			} else if v := sfield(r.st, full, obj, "Name"); v != "x" {
+				problems = append(problems, "fields next to an empty required field are not decoded")
 			}
-			for _, s := range stringLiterals([]*ssa.Function{fn}) {
-				lits[s] = true
-			}
-			for _, g := range guardsOf(fn) {
-				if regexp.MustCompile(`^\("-" == phi\(\(reflect\.StructTag\)\.Get\(.*,"control"\)\|.*\.Name\)\)$`).MatchString(g.Term) {
-					nameDefault = true
+		}
+		if undecided != "" {
+			req.undecided("decoder:required", pos, undecided)
+		} else {
+			fillProblems(req, "decoder:required", pos, problems, "absent required field is an error; present-but-empty is accepted")
+		}
+		// (c) multiline empty optional omitted, multiline required written
+		undecided = ""
+		problems = nil
+		ml := mkProbeType("Multi", []probeField{{"A", str, `multiline:"true"`, false}, {"B", str, `multiline:"true" required:"true"`, false}, {"C", str, "", false}})
+		r = newC09Run(p)
+		obj = r.st.alloc(ml, mkStruct(ml, map[string]Val{"C": "c"}))
+		if t, isErr, why := r.marshal(ml, obj); !note(why) {
+			para, perr := refParagraph(t)
+			switch {
+			case isErr || perr != "":
+				problems = append(problems, fmt.Sprintf("marshal of empty multi-line fields fails or gives %q", t))
+			default:
+				if _, ok := para.values["A"]; ok {
+					problems = append(problems, fmt.Sprintf("an empty optional multi-line field is written (text %q): the newline prefix is added before the emptiness test", t))
+				}
+				if _, ok := para.values["B"]; !ok {
+					problems = append(problems, fmt.Sprintf("an empty required multi-line field is not written (text %q)", t))
 				}
 			}
 		}
-		r.check(lits["-"] && lits["true"] && lits[" "] && nameDefault, "conventions:"+side.name, "", "name = control tag or Go name; \"-\" skips; required == \"true\"; default delimiter \" \"", fmt.Sprintf("literals \"-\": %v, \"true\": %v, \" \": %v, wire name defaults to the Go name and is compared with \"-\": %v", lits["-"], lits["true"], lits[" "], nameDefault))
-	}
-}
-
-func c09Req(p *Prog, rp *Report) {
-	r := rp.Rule("C09-REQ", "omission and required handling", 3)
-	ctp := p.Func("control", "convertToParagraph")
-	if ctp == nil {
-		r.bad("control.convertToParagraph", "", "function not found", nil)
-	} else {
-		tm := newTermer()
-		// the skip decision: ("" == marshal#0) then ("true" == Get(required)) ; non-required+empty -> continue
-		var emptyG, reqG *guard
-		gs := guardsOf(ctp)
-		for i, g := range gs {
-			if regexp.MustCompile(`^\("" == control\.\w+\(.*\)#0\)$`).MatchString(g.Term) {
-				emptyG = &gs[i]
-			}
-			if regexp.MustCompile(`^\("true" == \(reflect\.StructTag\)\.Get\(.*,"required"\)\)$`).MatchString(g.Term) {
-				reqG = &gs[i]
-			}
+		if undecided != "" {
+			req.undecided("encoder:multiline", pos, undecided)
+		} else {
+			fillProblems(req, "encoder:multiline", pos, problems, "emptiness is decided before the multi-line prefix is added")
 		}
-		okOmit := emptyG != nil && reqG != nil
-		// the multiline prefix must be added only after the decision to keep the field
-		okOrder := true
-		for _, b := range ctp.Blocks {
-			for _, ins := range b.Instrs {
-				if bo, ok := ins.(*ssa.BinOp); ok && isStringT(bo.Type()) {
-					if s, ok := constString(bo.X); ok && s == "\n" {
-						// this block must be dominated by the empty-check block
-						if emptyG == nil || !emptyG.If.Block().Dominates(b) || b == emptyG.If.Block() {
-							okOrder = false
+	}
+
+	// ---- KINDS: one single-field probe per kind ------------------------------------------------
+	{
+		type kc struct {
+			name string
+			typ  types.Type
+			tag  string
+			text string
+			want string
+		}
+		for _, c := range []kc{
+			{"String", str, "", "V: some text\n", `"some text"`},
+			{"Int", integer, "", "V: -17\n", "i-17"},
+			{"Uint", uinteger, "", "V: 17\n", "i17"},
+			{"Bool:true", boolean, "", "V: yes\n", "T"},
+			{"Bool:false", boolean, "", "V: no\n", "F"},
+			{"Slice:blank", types.NewSlice(str), "", "V: a b\n", `["a" "b"]`},
+			{"Slice:delim", types.NewSlice(str), `delim:", " strip:" \n"`, "V: a b, c\n", `["a b" "c"]`},
+			{"Slice:struct", types.NewSlice(archT), "", "V: amd64 any\n", ""},
+			{"Struct", verT, "", "V: 2:1.0~rc1-1\n", `{i2 "1.0~rc1" "1"}`},
+		} {
+			undecided = ""
+			var problems []string
+			t := mkProbeType("Kind", []probeField{{"V", c.typ, c.tag, false}})
+			r := newC09Run(p)
+			o1, isErr, why := r.unmarshal(t, c.text)
+			if !note(why) {
+				if isErr {
+					problems = append(problems, fmt.Sprintf("%q does not unmarshal into a %s field", c.text, c.typ))
+				} else {
+					f1 := fieldsOf(r.st, t, o1, nil)
+					if c.want != "" && f1["V"] != c.want {
+						problems = append(problems, fmt.Sprintf("%q unmarshals to %s, want %s", c.text, f1["V"], c.want))
+					}
+					tx, isErr, why := r.marshal(t, o1)
+					if !note(why) {
+						if isErr {
+							problems = append(problems, fmt.Sprintf("a %s field unmarshals but does not marshal", c.typ))
+						} else if tx != c.text {
+							problems = append(problems, fmt.Sprintf("%q is marshalled back as %q", c.text, tx))
+						} else if o2, isErr, why := r.unmarshal(t, tx); !note(why) {
+							if isErr {
+								problems = append(problems, fmt.Sprintf("the marshalled text %q does not unmarshal", tx))
+							} else if d := diffFields(f1, fieldsOf(r.st, t, o2, nil)); len(d) > 0 {
+								problems = append(problems, "after marshal+unmarshal "+d[0])
+							}
 						}
-						_ = tm
+					}
+				}
+			}
+			if undecided != "" {
+				kinds.undecided("kind:"+c.name, pos, undecided)
+			} else {
+				fillProblems(kinds, "kind:"+c.name, pos, problems, fmt.Sprintf("%q -> value -> same text -> same value", c.text))
+			}
+		}
+	}
+
+	// ---- MERGE ----------------------------------------------------------------------------
+	undecided = ""
+	merge := c09Merge(p, rp)
+	{
+		var problems []string
+		r := newC09Run(p)
+		docM := "X-Before: 1\nName: hello\nX-Middle: two words\nNeeded: n\nCount: 7\nX-After: z\n"
+		fullP := mkProbeType("WithParagraph", append([]probeField{{"Paragraph", paraT, "", true}}, fields[:8]...))
+		obj, isErr, why := r.unmarshal(fullP, docM)
+		if !note(why) {
+			if isErr {
+				problems = append(problems, "a document with unknown fields does not unmarshal into a struct embedding Paragraph")
+			} else {
+				sv := r.st.Heap[obj].V.(*StructV)
+				sv.F[fieldIndex(structOf(fullP), "Name")] = "changed"
+				sv.F[fieldIndex(structOf(fullP), "Wire")] = "added"
+				tx, isErr, why := r.marshal(fullP, obj)
+				if !note(why) {
+					para, perr := refParagraph(tx)
+					if isErr || perr != "" {
+						problems = append(problems, fmt.Sprintf("marshal fails or gives %q", tx))
+					} else {
+						wantOrder := "X-Before,Name,X-Middle,Needed,Count,X-After,X-Wire-Name,Size,Flag"
+						if got := strings.Join(para.order, ","); got != wantOrder {
+							problems = append(problems, fmt.Sprintf("field order %s, want %s (original order, then the struct's new fields)", got, wantOrder))
+						}
+						for k, w := range map[string]string{"X-Before": "1", "X-Middle": "two words", "X-After": "z", "Name": "changed", "X-Wire-Name": "added", "Count": "7", "Needed": "n"} {
+							if g := strings.TrimSuffix(para.values[k], "\n"); g != w {
+								problems = append(problems, fmt.Sprintf("field %s is written as %q, want %q", k, g, w))
+							}
+						}
 					}
 				}
 			}
 		}
-		r.check(okOmit, "control.convertToParagraph:omit", p.Pos(ctp.Pos()), "a field is skipped iff its text is empty and it is not required", "the encoder does not decide omission on (text == \"\" and required != \"true\")")
-		r.check(okOrder, "control.convertToParagraph:multiline-order", p.Pos(ctp.Pos()), "the multiline newline is prefixed only after the field was found non-empty or required", "the multiline prefix is added before the emptiness test: an empty optional multiline field is no longer omitted")
-	}
-	ds := p.Func("control", "decodeStruct")
-	if ds == nil {
-		r.bad("control.decodeStruct", "", "function not found", nil)
-		return
-	}
-	okPresence := false
-	var presence *guard
-	gs := guardsOf(ds)
-	for i, g := range gs {
-		if regexp.MustCompile(`^.*\.Values\[.*\]#1$`).MatchString(g.Term) {
-			okPresence = true
-			presence = &gs[i]
+		if undecided != "" {
+			merge.undecided("probe.WithParagraph", pos, undecided)
+		} else {
+			fillProblems(merge, "probe.WithParagraph", pos, problems, "unknown fields unchanged in their original position; known fields carry the struct's current values; new fields appended in struct order")
 		}
 	}
-	okReq := false
-	for _, g := range gs {
-		if regexp.MustCompile(`^\("true" == \(reflect\.StructTag\)\.Get\(.*,"required"\)\)$`).MatchString(g.Term) && rejectsOn(ds, g, 0) {
-			if presence != nil && presence.If.Block().Succs[1].Dominates(g.If.Block()) {
-				okReq = true
+
+	// ---- NOPANIC: pointers, nil slices ---------------------------------------------------------
+	undecided = ""
+	{
+		pt := mkProbeType("Pointers", []probeField{{"PV", types.NewPointer(verT), "", false}, {"PS", types.NewPointer(str), "", false}, {"L", types.NewSlice(verT), "", false}, {"Needed", str, `required:"true"`, false}})
+		var problems []string
+		r := newC09Run(p)
+		obj := r.st.alloc(pt, zeroVal(pt))
+		if tx, isErr, why := r.marshal(pt, obj); !note(why) {
+			if isErr {
+				problems = append(problems, "a struct with nil pointer fields cannot be marshalled")
+			} else if para, _ := refParagraph(tx); para != nil {
+				if _, ok := para.values["PV"]; ok {
+					problems = append(problems, "a nil pointer field is written")
+				}
 			}
 		}
+		r = newC09Run(p)
+		vid := r.st.alloc(verT, mkStruct(verT, map[string]Val{"Epoch": int64(1), "Version": "2.0", "Revision": "3"}))
+		sid := r.st.alloc(str, "text")
+		obj = r.st.alloc(pt, mkStruct(pt, map[string]Val{"PV": Ptr{Obj: vid}, "PS": Ptr{Obj: sid}}))
+		if tx, isErr, why := r.marshal(pt, obj); !note(why) {
+			if isErr {
+				problems = append(problems, "a struct with non-nil pointer fields cannot be marshalled")
+			} else if para, _ := refParagraph(tx); para == nil || strings.TrimSpace(para.values["PV"]) != "1:2.0-3" || strings.TrimSpace(para.values["PS"]) != "text" {
+				problems = append(problems, fmt.Sprintf("pointer fields are marshalled as %q, want PV: 1:2.0-3 and PS: text", tx))
+			}
+		}
+		for _, pn := range panics {
+			problems = append(problems, pn)
+		}
+		if undecided != "" {
+			nop.undecided("probes", pos, undecided)
+		} else {
+			fillProblems(nop, "probes", pos, problems, "no panic state on any run of this check; nil pointers are omitted, non-nil pointers are followed")
+		}
 	}
-	r.check(okPresence && okReq, "control.decodeStruct:required", p.Pos(ds.Pos()), "presence is the map's comma-ok result; an absent required key is an error; a present empty value is decoded", "the decoder does not tell an absent key from an empty value by the map's comma-ok result (a required field written as empty would be reported missing), or an absent required key is not an error")
+	supported := map[string]bool{}
+	for _, s := range kinds.Instances {
+		if s.Status == "ok" {
+			supported[strings.SplitN(strings.TrimPrefix(s.Construct, "kind:"), ":", 2)[0]] = true
+		}
+	}
+	c09Types(p, rp, supported)
 }
 
-func c09Merge(p *Prog, rp *Report) {
-	r := rp.Rule("C09-MERGE", "unknown fields pass through: embedded.Update(struct fields); Update / Set tables", 3)
-	ctp := p.Func("control", "convertToParagraph")
+func c09Merge(p *Prog, rp *Report) *Rule {
+	r := rp.Rule("C09-MERGE", "unknown fields pass through in their original order; known fields reflect the struct; Update / Set tables", 3)
 	upd := p.Method("control", "Paragraph", "Update")
 	set := p.Method("control", "Paragraph", "Set")
 	pt := p.Named("control", "Paragraph")
-	if ctp == nil || upd == nil || set == nil || pt == nil {
+	if upd == nil || set == nil || pt == nil {
 		r.bad("control.Paragraph", "", "anchor not found", nil)
-		return
+		return r
 	}
-	// convertToParagraph: result = found.Update(Paragraph{order, values})
-	tm := newTermer()
-	okCall := false
-	for _, c := range callsNamed(ctp, upd.String()) {
-		recv := tm.term(c.Call.Args[0])
-		arg := c.Call.Args[1]
-		// receiver must be the cell holding the embedded paragraph (assigned from the Anonymous field)
-		recvOK := false
-		if al, ok := c.Call.Args[0].(*ssa.Alloc); ok {
-			for _, ref := range *al.Referrers() {
-				if st, ok := ref.(*ssa.Store); ok && st.Addr == al {
-					if strings.Contains(tm.term(st.Val), "Interface(") {
-						recvOK = true
-					}
-				}
-			}
-		}
-		// argument must be the paragraph built from order / values
-		argOK := false
-		if u, ok := arg.(*ssa.UnOp); ok {
-			if al, ok := u.X.(*ssa.Alloc); ok {
-				fields := map[string]bool{}
-				for _, ref := range *al.Referrers() {
-					if fa, ok := ref.(*ssa.FieldAddr); ok {
-						fields[structOf(pt).Field(fa.Field).Name()] = true
-					}
-				}
-				argOK = fields["Order"] && fields["Values"]
-			}
-		}
-		_ = recv
-		okCall = recvOK && argOK
-	}
-	r.check(okCall, "control.convertToParagraph", p.Pos(ctp.Pos()), "returns embedded.Update(Paragraph{fields of the struct})", "the result is not embeddedParagraph.Update(structFields): unknown fields are lost or known fields do not override")
 	// Update table
 	mk := func(st *State, order []string, vals map[string]string) *StructV {
 		mid := st.alloc(structOf(pt).Field(fieldIndex(structOf(pt), "Values")).Type(), &MapObjV{})
@@ -455,6 +807,7 @@ func c09Merge(p *Prog, rp *Report) {
 		}
 		fillProblems(r, "control.Paragraph.Set", p.Pos(set.Pos()), problems, "existing key: value replaced in place; new key: appended to Order")
 	}
+	return r
 }
 
 func fillProblems(r *Rule, key, pos string, problems []string, okMsg string) {
@@ -471,7 +824,8 @@ func fillProblems(r *Rule, key, pos string, problems []string, okMsg string) {
 	r.check(len(problems) == 0, key, pos, okMsg, strings.Join(problems, "; "))
 }
 
-func c09Types(p *Prog, rp *Report, ek, dk map[string]*ssa.BasicBlock) {
+
+func c09Types(p *Prog, rp *Report, supported map[string]bool) {
 	r := rp.Rule("C09-TYPES", "every field of the repository's document types is handled by both walkers", 40)
 	marsh := p.Named("control", "Marshallable")
 	unmarsh := p.Named("control", "Unmarshallable")
@@ -531,11 +885,8 @@ func c09Types(p *Prog, rp *Report, ek, dk map[string]*ssa.BasicBlock) {
 					}
 					return ""
 				}
-				if ek[k] == nil {
-					return fmt.Sprintf("%s kind %s has no case in the encoder", where, k)
-				}
-				if dk[k] == nil {
-					return fmt.Sprintf("%s kind %s has no case in the decoder", where, k)
+				if !supported[k] {
+					return fmt.Sprintf("%s kind %s does not round-trip through the walkers (see C09-KINDS)", where, k)
 				}
 				return ""
 			}
